@@ -10,10 +10,12 @@ META = {
     'design_ref': 'DESIGN.md §5 C13',
     'text': 'Kernel-checked, unbounded: (npm) for documents with unique keys and well-formed updates a successful Write yields exactly '
             'substitute(requirements, updates) on re-Read, keeps keys/order and every unaddressed entry, is the identity on no updates, and never '
-            'succeeds silently on a key that is present; the escaped path component is parsed back by gjson as the literal key. '
+            'succeeds silently on a key that is present; the escaped path component is parsed back by gjson as the literal key; on the span model of the file the output is the input with '
+            'exactly the addressed value spans replaced (every other byte in place), and the bytes are unchanged with no updates. '
             '(pom) generatePropertyPatches never slices out of range for any two strings, and every returned patch map interpolates the old '
             'requirement to exactly the new one and gives no name two values (full strength after fix d4dd80ce). '
-            'The abstract pom writer is the identity on no updates. The pom.xml writer as a whole is covered by correspondence plus the '
+            'The abstract pom writer has Write\'s error outcome (malformed Name), is the identity on no updates, and on the literal fragment (all versions literal, unique keys, any number of updates on different keys) '
+            'succeeds, re-reads as substituted and applies every update (no silent success). Beyond that fragment the pom.xml writer is covered by correspondence plus the '
             'requirement-level oracle (re-read = substitute), not by a general theorem; four classes where the unchanged writer leaves the '
             'property are recorded as known findings with witnesses (comment inside <version>, dependencies-vs-dependencyManagement addressing, shared property, a property defined only in another profile); three '
             'former ones (white space in key elements, undefined property, repeated placeholder) were repaired and their witnesses are regression cases. Token level: writeString (the rewrite applied to every dependency / parent / properties element) is modelled on token '
@@ -25,11 +27,13 @@ META = {
 }
 NPM = 'Scalibr.Npm.'
 POM = 'Scalibr.Pom.'
-THEOREMS = [NPM + 'C13_npm_escape', NPM + 'C13_npm_roundtrip', NPM + 'C13_npm_identity', NPM + 'C13_npm_no_silent_success',
-            NPM + 'C13_npm_present_applied', NPM + 'C13_npm_alias_at_witness',
+THEOREMS = [NPM + 'C13_npm_escape', NPM + 'C13_npm_roundtrip_partial', NPM + 'C13_npm_identity', NPM + 'C13_npm_no_silent_success',
+            NPM + 'C13_npm_present_applied', NPM + 'C13_npm_alias_at_witness', NPM + 'C13_npm_absent_key_witness',
+            NPM + 'C13_npm_bytes_partial', NPM + 'C13_npm_bytes_untouched_partial', NPM + 'C13_npm_bytes_identity',
             POM + 'C13_pom_props_total', POM + 'C13_pom_props_sound', POM + 'C13_pom_props_repeated_name_fixed',
-            POM + 'C13_pom_props_fixed_witnesses', POM + 'C13_pom_identity',
-            POM + 'C13_pom_literal_roundtrip', POM + 'C13_pom_class_witnesses', POM + 'C13_pom_other_profile_witness', POM + 'C13_pom_fixed_witnesses',
+            POM + 'C13_pom_props_fixed_witnesses', POM + 'C13_pom_identity', POM + 'C13_pom_invalid_name_error',
+            POM + 'C13_pom_literal_roundtrip_partial', POM + 'C13_pom_no_silent_success_partial',
+            POM + 'C13_pom_class_witnesses', POM + 'C13_pom_other_profile_witness', POM + 'C13_pom_fixed_witnesses',
             'Scalibr.PomTok.C13_pom_tokens_identity_partial', 'Scalibr.PomTok.C13_pom_tokens_comment_witness']
 
 
@@ -73,7 +77,7 @@ def run(ctx):
     if ctx.tier == 'thorough':
         proofs_ok = ctx.leanchecker('Scalibr.Properties.C13') and proofs_ok
     n = {'quick': 2000, 'thorough': 12000}[ctx.tier]
-    KEYS = ['r', 'dev', 'opt', 'prod', 'reqs', 'deps', 'props', 'out']
+    KEYS = ['r', 'dev', 'opt', 'prod', 'reqs', 'deps', 'props', 'out', 'rb']
 
     def agree(fi, fm):
         return all(fi.get(k) == fm.get(k) for k in KEYS)
@@ -84,7 +88,7 @@ def run(ctx):
             return '247b' in t[1] and fi.get('r') != 'no'
         if t[0] == 'ws':
             return t[2] != '-'
-        return t[-1] != '-'
+        return t[4] != '-'
 
     def oracle(case, fi, fm):
         op = case.split(' ')[0]
@@ -118,12 +122,12 @@ def run(ctx):
                 if interpolate(s1, m) != s2:
                     return 'generatePropertyPatches(%r, %r) returned %r, which interpolates to %r' % (s1, s2, m, interpolate(s1, m))
         else:
-            if r in ('ok-nofile', 'ok-rereaderr'):
+            if r in ('ok-nofile', 'ok-rereaderr', 'err-but-wrote'):
                 return 'pom.xml Write: ' + r
             if r == 'ok' and fm.get('scope') == '1':
                 if fi.get('reqs') != fm.get('spec'):
                     return 'pom.xml: re-read requirements differ from substitute(original, updates)'
-                if case.split(' ')[-1] == '-':
+                if case.split(' ')[4] == '-':
                     if fi.get('tok') != '1':
                         return 'pom.xml: no updates, but the token sequence (elements, attributes, text, comments) changed'
                 elif fi.get('rest') != '1':
@@ -134,7 +138,7 @@ def run(ctx):
         if not agree(fi, fm):
             return None          # a model/implementation difference is never excused by a class
         op = case.split(' ')[0]
-        if op == 'pomc' and case.split(' ')[-1] == '-':
+        if op == 'pomc' and case.split(' ')[4] == '-':
             return 'C13/pom-version-comment'
         if op == 'ws':
             return fm['cls'] if fm.get('cls', '-') != '-' else None
@@ -151,7 +155,7 @@ def run(ctx):
             return 'pp r=%s cons=%s' % (r, fm.get('cons'))
         if op == 'ws':
             return 'ws %s simple=%s same=%s' % (case.split(' ')[1], fm.get('simple'), fm.get('same'))
-        return '%s r=%s updates=%s cls=%s' % (op, r, 'none' if case.split(' ')[-1] == '-' else 'some', fm.get('cls'))
+        return '%s r=%s updates=%s cls=%s' % (op, r, 'none' if case.split(' ')[4] == '-' else 'some', fm.get('cls'))
 
     lib.standard_stream(ctx, gen='c13gen', driver='drv_c13', gen_args=['-seed', str(ctx.seed), '-n', str(n), '-tier', ctx.tier],
                         compare_keys=KEYS, nontrivial=nontrivial, oracle=oracle, classify=classify, finding_class=finding_class,
